@@ -246,4 +246,24 @@ theorem isRed_setCol (c : Bool) (t : Tree α) (h : t ≠ .nil) : isRed (setCol c
   | nil => exact absurd rfl h
   | node l n mx c' r => rfl
 
+/-- the complete deletion is `delCore` followed by rotations and recolourings -/
+theorem rbDelete_rebal (S k : α) (t t1 : Tree α) (h : rbDelete S k t = some t1) :
+    ∃ c, delCore S k t = some c ∧ Rebal S c t1 := by
+  unfold rbDelete at h
+  cases hs : spliceInfo k t [] with
+  | none => rw [hs] at h; simp at h
+  | some p =>
+    obtain ⟨rp, yred, xnil⟩ := p
+    rw [hs] at h
+    cases hc : delCore S k t with
+    | none => rw [hc] at h; simp at h
+    | some c =>
+      rw [hc] at h
+      simp only [Option.map_some, Option.some.injEq] at h
+      refine ⟨c, rfl, ?_⟩
+      rw [← h]
+      split
+      · exact rbDelFix_rebal S rp c
+      · exact Rebal.refl c
+
 end XrsVerif.Viewshed
